@@ -3,6 +3,7 @@ import itertools
 from vlib import core
 
 PID = "C20"
+ENTRIES = {"c20": ("Hist.Entry", "entry_c20")}
 TRUSTED = ["modelled, not verified: brush-core/src/history.rs (import/add/flush/remove_nth_item/clear), "
            "shell/history.rs (add_to_history trim, save_history flags), builtin `history -d/-c` index arithmetic; "
            "the clock is an input of the model (the stamp observed in the code is fed to the model)"]
